@@ -15,6 +15,7 @@ require (
 	github.com/nanyan/golz4 v1.0.0 // indirect
 	github.com/rcrowley/go-metrics v0.0.0-20190826022208-cac0b30c2563 // indirect
 	github.com/syndtr/goleveldb v1.0.0 // indirect
+	github.com/youchainhq/bls v0.9.0 // indirect
 	golang.org/x/crypto v0.0.0-20200423211502-4bdfaf469ed5 // indirect
 	golang.org/x/sys v0.0.0-20190904154756-749cb33beabd // indirect
 	gopkg.in/karalabe/cookiejar.v2 v2.0.0-20150724131613-8dcd6a7f4951 // indirect
